@@ -17,7 +17,8 @@ EXPLANATION = (
     "absence of collisions between different positions are NOT decided; 'for every draw' is decided only for the draw compiled. R2/R3 "
     'cover every &mut Board method from which a push / pop on the rights or en-passant stack is reachable (discovered), each stack '
     'separately; toggles may be skipped on a path that established old top == new top; further owner methods are admitted only when '
-    'called from delegators these rules decide.'
+    'called from delegators these rules decide. R2/R3 report a discovered compound method that exceeds the path limit per method and '
+    'continue with R4.'
 )
 ASSUMPTIONS = [
     "rustc MIR construction, const evaluation and the chessfacts extractor are faithful",
